@@ -66,7 +66,7 @@ def _loop_some_edges(ctx, body, next_bb):
             continue
         for succ, facts in ctx.pf.switch_facts(body, sw).items():
             for f in facts:
-                if f[0] == "variant" and f[2] == "Some" and f[1][0] == "call" and f[1][3] == (body.id, next_bb):
+                if f[0] == "variant" and f[2] == "Some" and f[1][0] == "call" and f[1][3] == (body.id, body.orig(next_bb)):
                     out.append(succ)
     return out
 
@@ -457,6 +457,13 @@ def rule_PL6(ctx, tier):
         for f in fs:
             t = f[1]
             alts = t[1] if t[0] == "phi" else (t,)
+            # `opt.map_or(d, |v| g(v))` is `match opt { None => d, Some(v) => g(v) }`
+            ts = og.strip(t)
+            if isinstance(ts, tuple) and ts and ts[0] == "call" and ts[1].split("::")[-1] in ("map_or", "map_or_else", "is_none_or") and len(ts[2]) >= 2:
+                cl = [a for a in ts[2] if isinstance(a, tuple) and a and a[0] == "closure" and a[1] in P.bodies]
+                dflt = [a for a in ts[2][1:] if isinstance(a, tuple) and a and a[0] == "const"] or ([("const", True, None, "bool")] if ts[1].endswith("is_none_or") else [])
+                if cl and dflt:
+                    alts = (dflt[0], ctx.og.local(P.bodies[cl[-1][1]], 0))
             kinds = set()
             for a in alts:
                 if has_call(a, "RetrierStatus::is_running"):
